@@ -147,20 +147,24 @@ func (h *vHdrs) list(i int) []string {
 	return out
 }
 
-// specHeadersOK: every expected header has an actual header of the same name (ignoring case; the last one wins)
-// whose value list is the same up to joining/splitting on commas; extra actual headers are ignored.
+// specHeadersOK: every expected header is present in the actual metadata (name compared ignoring case) with the
+// same value list up to joining/splitting on commas; extra actual headers are ignored. Actual entries that name
+// the same header (in any letter case) are one header whose values are the entries' values in order - that is
+// the "comma-joined vs split values" leniency seen from the other side.
 func specHeadersOK(exp, act *vHdrs) bool {
 	for i := 0; i < exp.n; i++ {
-		found := -1
+		found := false
+		var merged []string
 		for j := 0; j < act.n; j++ {
 			if vLower(act.name[j]) == vLower(exp.name[i]) {
-				found = j
+				found = true
+				merged = append(merged, act.list(j)...)
 			}
 		}
-		if found < 0 {
+		if !found {
 			return false
 		}
-		if !vSameStrings(exp.list(i), act.list(found)) {
+		if !vSameStrings(exp.list(i), merged) {
 			return false
 		}
 	}
